@@ -40,13 +40,16 @@ def _big_stack():
             pass
 
 
+_big_stack()      # inherited by every child process (the extracted model recurses deeply)
+
+
 def sh(cmd, timeout=3600, cwd=None, env=None, inp=None):
     e = dict(os.environ)
     e.update({'CARGO_NET_OFFLINE': 'true'})
     if env: e.update(env)
     t0 = time.time()
     try:
-        p = subprocess.run(cmd, shell=isinstance(cmd, str), cwd=cwd, env=e, input=inp, capture_output=True, text=True, timeout=timeout, preexec_fn=_big_stack)
+        p = subprocess.run(cmd, shell=isinstance(cmd, str), cwd=cwd, env=e, input=inp, capture_output=True, text=True, timeout=timeout)
         return p.returncode, p.stdout, p.stderr, time.time() - t0
     except subprocess.TimeoutExpired as ex:
         return 124, (ex.stdout or b'').decode('utf-8', 'replace') if isinstance(ex.stdout, bytes) else (ex.stdout or ''), 'TIMEOUT', time.time() - t0
